@@ -154,6 +154,8 @@ def run_psd(case, R):
     try:
         got = psd(obs, msk, **kw)
     except Exception as e:
+        if not instr.is_library_exception(e):
+            raise
         R.fail('C10.value', f'raised/{mk.split("-")[0]}-mask/{layout}', f'get_power_spectral_density_matrix raised {type(e).__name__}: {str(e)[:120]}', **desc)
         return
     got = np.asarray(got)
@@ -185,12 +187,16 @@ def run_psd(case, R):
             dv2 = float(np.abs(got2 - got).max())
             R.check('C10.structure', dv2 <= 1e-10 * scale, 'structure/mask-rescaling', f'normalised PSD changes by {dv2:.3e} when the mask is scaled by {a:.3g}', **desc)
         except Exception as e:
+            if not instr.is_library_exception(e):
+                raise
             R.fail('C10.structure', 'structure/mask-rescaling-raised', f'{type(e).__name__}')
     if mk.startswith('bool'):
         try:
             got3 = psd(obs, np.asarray(msk_before, dtype=float), **kw)
             R.check('C10.value', np.allclose(got3, got, rtol=1e-12, atol=1e-300), 'value/bool-vs-float', 'boolean mask result differs from its float version', **desc)
         except Exception as e:
+            if not instr.is_library_exception(e):
+                raise
             R.count('float version of bool mask raised')
     if layout != 'default' or mk.startswith(('bool', 'zero', 'part')) or lead:
         R.mark_nontrivial(mk, layout, list(lead), sorted(desc['kwargs'].items()), D > 1, T > 1)
@@ -209,6 +215,8 @@ def run_cond(case, R):
     try:
         got = condition_covariance(P, gamma)
     except Exception as e:
+        if not instr.is_library_exception(e):
+            raise
         R.fail('C10.condition', 'condition/raised', f'condition_covariance raised {type(e).__name__}: {str(e)[:100]}')
         return
     ref = np.empty_like(before)
